@@ -515,8 +515,8 @@ Lemma spec_object_type_like name impls dirs fields :
   ap_spec (ap_object_type_like name impls dirs fields) (pi_object_type_like name impls dirs fields).
 Proof.
   unfold ap_object_type_like, pi_object_type_like.
-  pose proof (spec_name_list (fun n : str => n) [pi_s; pi_n kw_implements; pi_s]
-                (ap_sp ++ kw_implements ++ ap_sp) PAmp [c_space; c_amp; c_space] impls) as Hn.
+  pose proof (spec_name_list (fun n : str => n) [pi_s; pi_n apk_implements; pi_s]
+                (ap_sp ++ apk_implements ++ ap_sp) PAmp [c_space; c_amp; c_space] impls) as Hn.
   rewrite map_id in Hn. specialize (Hn ltac:(text_norm; reflexivity) eq_refl).
   destruct fields; spec_go.
 Qed.
@@ -557,8 +557,8 @@ Lemma spec_directive_definition desc name args rep locs :
           (pi_directive_definition desc name args rep locs).
 Proof.
   unfold ap_directive_definition, pi_directive_definition.
-  pose proof (spec_name_list ap_dirloc_name [pi_s; pi_n kw_on; pi_s]
-                (ap_sp ++ kw_on ++ ap_sp) PPipe [c_space; c_pipe; c_space] locs
+  pose proof (spec_name_list ap_dirloc_name [pi_s; pi_n apk_on; pi_s]
+                (ap_sp ++ apk_on ++ ap_sp) PPipe [c_space; c_pipe; c_space] locs
                 ltac:(text_norm; reflexivity) eq_refl) as Hn.
   destruct rep; spec_go.
 Qed.
